@@ -46,12 +46,42 @@ def as_term_hook(it, v, sort):
     return None
 
 
+SORT_KEY_FUNCTIONS = {}      # name of an abstract key function -> its number in the model (0 is "no key function")
+
+
+def sort_key_function(name):
+    """an opaque key function handed to sort(key=...); list.sort is the only thing that may call it"""
+    from hv.vc.values import AbstractCallable, OutOfSubset
+
+    def apply(it, args, kw):
+        raise OutOfSubset('the sort key function is called outside list.sort')
+    SORT_KEY_FUNCTIONS.setdefault(name, len(SORT_KEY_FUNCTIONS) + 1)
+    return AbstractCallable(name, apply)
+
+
 def list_sort_hook(it, seq, args, kw):
-    """A-bi-sort: list.sort() without key yields SORT(old), a permutation of the old list."""
-    if args or kw:
-        from hv.vc.values import OutOfSubset
-        raise OutOfSubset('list.sort with key/reverse on a symbolic list')
+    """A-bi-sort: list.sort(key=f, reverse=r) yields SORT(old, f, r), a permutation of the old list determined by (old, f, r)."""
+    from hv.vc.values import OutOfSubset, AbstractCallable
+    if args:
+        it.raise_('TypeError', 'sort() takes no positional arguments')
+    extra = set(kw) - {'key', 'reverse'}
+    if extra:
+        it.raise_('TypeError', 'sort() got an unexpected keyword argument')
+    f = kw.get('key')
+    if f is None:
+        fid = 0
+    elif isinstance(f, AbstractCallable) and f.name in SORT_KEY_FUNCTIONS:
+        fid = SORT_KEY_FUNCTIONS[f.name]
+    else:
+        raise OutOfSubset('list.sort with a key function that is not the caller\'s')
+    r = kw.get('reverse', False)
+    if isinstance(r, bool) or r in (0, 1):
+        rev = bool(r)
+    else:
+        rev = it.truth(r) if hasattr(it, 'truth') else None
+        if rev is None:
+            raise OutOfSubset('list.sort with a symbolic reverse flag')
     old_arr, n = seq.arr, seq.length
-    for ax in OM.sort_axioms(old_arr, n):
+    for ax in OM.sort_axioms(old_arr, n, fid, rev):
         it.ctx.assume(ax)
-    seq.arr = OM.sorted_arr(old_arr, n)
+    seq.arr = OM.sorted_arr(old_arr, n, fid, rev)
